@@ -638,6 +638,24 @@ example : allowedFresh xJoin (Provider.ofEvents xFull.reverse) false = .ok := by
 example : (neededKey xJoin xName, neededKey xJoin xZed, neededKey xJoin xAuthMember, neededKey xJoin xCreate)
     = (false, false, true, true) := by decide +kernel
 
+/-- Member names are exact for `StateNeededForAuth` as for the check (the repair "every reader of member content matches
+    member names exactly"): of the join whose authorising user is spelled `Join_authorised_via_users_server` the selection
+    names no authoriser's membership — and the check, which reads no authorising user either, refuses it against the full
+    state and against the selection alike (a folded `StateNeededForAuth` named `@auth:x`, a folded check accepted it). -/
+def xJoinVariant : Event := mkEv b!"$e" b!"m.room.member" b!"@a:x" (some b!"@a:x")
+  [(b!"membership", .str b!"join"), (b!"Join_authorised_via_users_server", .str b!"@auth:x")]
+
+example : (selectNeeded (Provider.ofEvents xFull) xJoinVariant).map (·.eventID) = [b!"$c", b!"$j", b!"$l"]
+    ∧ (allowedFresh xJoinVariant (Provider.ofEvents xFull) false).coarse = "rej"
+    ∧ (allowedFresh xJoinVariant (Provider.ofEvents (selectNeeded (Provider.ofEvents xFull) xJoinVariant)) false).coarse = "rej" := by
+  decide +kernel
+
+/-- … and a content that says `Membership` only names no join rules: it has no membership. -/
+example : (stateNeeded (mkEv b!"$e" b!"m.room.member" b!"@a:x" (some b!"@a:x") [(b!"Membership", .str b!"join")])).joinRules = false
+    ∧ (stateNeeded (mkEv b!"$e" b!"m.room.member" b!"@a:x" (some b!"@a:x")
+        [(b!"membership", .str b!"leave"), (b!"memberſhip", .str b!"join")])).joinRules = false := by
+  decide +kernel
+
 end Needed
 
 end V.C09
